@@ -60,6 +60,8 @@ class IdentityRun(PubSubRun):
     def __init__(self, choices, forced=None):
         super().__init__(choices, "C06")
         self.forced = forced
+        if forced and forced.get("table") in ("uid_wrap", "many_alive"):
+            self.force_loglevel = logging.ERROR      # (tens of thousands of connections: no log record per accept)
         self.parts = []          # all participants (Actor | ClientActor)
         self.attempts = []       # dict per connect attempt
 
@@ -357,6 +359,69 @@ class IdentityRun(PubSubRun):
         self.w.quiesce()
         self.after_step(att)
 
+    def raw_attempt(self, name, rid, multi, mname, proto="v2v1"):
+        a = self.new_actor(name)
+        a.protected = True
+        a.open()
+        a.handshake(proto, req_id=rid, allow_multiple=multi, name=mname, pid=1)
+        a.subscribe(T)
+        a.opts = dict(rid=rid, multi=multi, logger=False, daemon=False, name=mname)
+        a.via = "raw_" + proto
+        self.parts.append(a)
+        att = dict(via=a.via, opts=a.opts, idx=len(self.parts) - 1, part=a, conn=a.conn, outcome=None)
+        self.attempts.append(att)
+        self.w.quiesce()
+        self.after_step(att, light=True)
+        return a, att
+
+    def case_uid_wrap(self, f):
+        """a unique module stays connected while tens of thousands of other connections come and go (every internal
+        per-connection counter of 16 bits has wrapped); its id and name are still its own"""
+        w = self.w
+        w.max_rounds = 10 ** 8
+        w.quiesce_limit = 10 ** 6
+        keeper, _ = self.raw_attempt("keeper", 7, False, b"keeper")
+        n = f.get("n", 65600)
+        self.t(f"{n} connections are opened and closed again, a few at a time")
+        for i in range(n):
+            x = Actor(w, "x")
+            x.open()
+            x.leave("fin" if i % 2 else "rst")
+            if i % 32 == 31:
+                w.quiesce()
+        w.quiesce()
+        self.res.probes["connections_churned_%d" % n] += 1
+        # now the same id, and the same name under another id, are requested by unique newcomers: both refused
+        self.raw_attempt("thief1", 7, False, b"other")
+        self.raw_attempt("thief2", 8, False, b"keeper")
+        self.raw_attempt("fine", 9, False, b"fine")
+
+    def case_many_alive(self, f):
+        """more than two hundred connections alive at once (many instances of one shared id, many dynamic ids);
+        a request for a free id is still served"""
+        w = self.w
+        w.max_rounds = 10 ** 7
+        w.quiesce_limit = 10 ** 5
+        for i in range(f.get("shared", 150)):
+            a = self.new_actor(f"m{i}")
+            a.protected = True
+            a.open()
+            a.handshake("v2v1", req_id=9, allow_multiple=True, name=b"", pid=1)
+            if i % 25 == 24:
+                w.quiesce()
+        for i in range(f.get("dynamic", 60)):
+            a = self.new_actor(f"y{i}")
+            a.protected = True
+            a.open()
+            a.handshake("v2v1", req_id=0, allow_multiple=False, name=b"", pid=1)
+            if i % 25 == 24:
+                w.quiesce()
+        w.quiesce()
+        self.res.probes["many_connections_alive"] += 1
+        self.raw_attempt("late_dyn", 0, False, b"")
+        self.raw_attempt("late_fixed", 33, False, b"late")
+        self.raw_attempt("late_shared", 9, True, b"")
+
     def step_fill_pool(self):
         """every dynamic id is taken; then one holder leaves and a newcomer must get exactly that id"""
         ch = self.ch
@@ -503,6 +568,12 @@ class IdentityRun(PubSubRun):
             ch = self.ch
             n = 2 + ch.pick("id.nsteps", 12)
             bursts = 0
+            if self.forced and self.forced.get("table") == "uid_wrap":
+                self.case_uid_wrap(self.forced)
+                n = 0
+            elif self.forced and self.forced.get("table") == "many_alive":
+                self.case_many_alive(self.forced)
+                n = 0
             for _ in range(n):
                 k = ch.weighted("id.step", [(8, "connect"), (3, "disconnect"), (1, "burst"), (2, "drop"), (2, "lazy"),
                                             (1, "vanish"), (2, "again")])
@@ -654,3 +725,11 @@ class IdentityRun(PubSubRun):
 
 def run(choices, forced=None) -> RunResult:
     return IdentityRun(choices, forced).run()
+
+
+def det_cases(tier):
+    cases = [dict(table="many_alive", shared=150, dynamic=60), dict(table="uid_wrap", n=2000)]
+    if tier == "thorough":
+        # every 16-bit per-connection counter wraps (about five minutes of simulation for this one run)
+        cases.append(dict(table="uid_wrap", n=65600, wall_s=1500))
+    return cases
